@@ -1,5 +1,6 @@
 import Setec.Proofs.Store
 import Setec.Properties.C11
+import Setec.Generated.Facts
 /-!
 # C12 - a Secret handle always yields a complete, really-served value, never blocking
 
@@ -217,5 +218,31 @@ theorem values_really_served (s : St) (items : List (SnapItem × Ans)) (n : Stri
     (∃ c, s.m[n]? = some (some c) ∧ c.sv = c'.sv) ∨
     (∃ it sv, (it, Ans.value sv) ∈ items ∧ it.name = n ∧ c'.sv = sv) :=
   C11.served_inv s items n c' h
+
+/-! ### T1: what the code does under `active.Lock` -/
+
+/-- scan a function's lock tokens: a request to the service or a single-flight call must not
+occur while `active` is held (function literals are separate scopes: they run later or in
+their own goroutine) -/
+def noRequestUnderLock : List String → List Bool → Bool
+  | [], _ => true
+  | t :: ts, st =>
+    if t == "func{" then noRequestUnderLock ts (false :: st)
+    else if t == "}" then noRequestUnderLock ts st.tail
+    else if t == "lock:active" then noRequestUnderLock ts (true :: st.tail)
+    else if t == "unlock:active" then noRequestUnderLock ts (false :: st.tail)
+    else if t == "request" || t == "singleflight" then st.head? != some true && noRequestUnderLock ts st
+    else noRequestUnderLock ts st
+
+/-- no function of the client store sends a request to the service (or waits on the
+single-flight group) while holding the lock that handles take: a read through a handle never
+waits for a request.  The handle itself is one critical section under that lock. -/
+theorem fact_no_request_under_lock :
+    Facts.storeLockTokens.all (fun f => noRequestUnderLock f.2 [false]) = true ∧
+    Facts.storeLockTokens.lookup "Store.secretLocked" = some ["func{", "lock:active", "defer-unlock:active", "}"] := by
+  decide
+
+/-- the scan is not vacuous: it rejects a request made under the lock -/
+example : noRequestUnderLock ["lock:active", "defer-unlock:active", "request"] [false] = false := by decide
 
 end Setec.C12
